@@ -33,27 +33,29 @@ Proof.
 Qed.
 
 (** * A history that exercises every place a transfer can be *)
-(** contract 0 is denom 0 on chain 0 and denom 2 on chain 1 (rows in the store order createBatch sees) *)
-Definition tb1 : list entry := [(1, 2, 0); (0, 0, 0)].
+(** contract 0 is denom 0 on chain 1 and denom 2 on chain 0 (createBatch visits the rows of the
+    DenomToERC20 index in key order: chain 0 first) *)
+Definition tb1 : list entry := [(0, 2, 0); (1, 0, 0)].
 Lemma tb1_wf : table_wf tb1.
 Proof. apply table_wf_b_sound. reflexivity. Qed.
 
 Definition b1 : Z -> Z -> Z := fun u d => 1000.
 Definition h1 : list op := [
-  OSend 0 0 0 100 20 nofault;          (* id 1 *)
-  OSend 1 1 2 50 0 nofault;            (* id 2: other chain, same contract address *)
-  OSend 0 0 0 70 14 nofault;           (* id 3 *)
-  OSend 0 0 0 5 1 (fat 1);             (* GetChainInfo fails after the coins were locked: rolled back *)
+  OSend 0 1 0 100 20 false nofault;    (* id 1 *)
+  OSend 1 0 2 50 0 false nofault;      (* id 2: other chain, same contract address *)
+  OSend 0 1 0 70 14 false nofault;     (* id 3 *)
+  OSend 0 1 0 5 1 false (fat 1);       (* GetChainInfo fails after the coins were locked: rolled back *)
+  OSend 0 1 0 5 1 true nofault;        (* over the transfer limit: refused *)
   OCreateBatch 50 1000 (fat 1);        (* relayer selection fails in the first build: nothing moves *)
-  OCreateBatch 100 1000 nofault;       (* batch 1 = chain 1 [id 2]; batch 2 = chain 0 [ids 1, 3] *)
+  OCreateBatch 100 1000 nofault;       (* batch 1 = chain 0 [id 2]; batch 2 = chain 1 [ids 1, 3] *)
   OCancel 0 3 nofault;                 (* fails: id 3 is in a batch *)
-  OSend 0 0 0 9 1 nofault;             (* id 4 *)
+  OSend 0 1 0 9 1 false nofault;       (* id 4 *)
   OCancel 0 4 nofault;                 (* refunded in full *)
-  OExecuted 1 0 2 5 nofault;           (* claim from the other chain for batch 2: rejected *)
-  OExecuted 0 0 2 5 (fat 0);           (* burn fails: rolled back *)
-  OExecuted 0 0 2 5 nofault;           (* batch 2 burned: 120 + 84 *)
-  ODeposit 0 0 (RUser 2) 500 nofault;
-  ODeposit 0 0 RBlocked 7 nofault;     (* undeliverable: community pool *)
+  OExecuted 0 0 2 5 nofault;           (* claim from the other chain for batch 2: rejected *)
+  OExecuted 1 0 2 5 (fat 0);           (* burn fails: rolled back *)
+  OExecuted 1 0 2 5 nofault;           (* batch 2 burned: 120 + 84 *)
+  ODeposit 1 0 (RUser 2) 500 nofault;
+  ODeposit 1 0 RBlocked 7 nofault;     (* undeliverable: community pool *)
   OSweep 1601 nofault                  (* batch 1 timed out: id 2 back in the pool *)
 ].
 Definition s1 : state := run (init tb1 b1 (fun _ => 0)) h1.
@@ -70,18 +72,22 @@ Proof. unfold accepted. change (last_tx s1) with 4. lia. Qed.
 Example s1_history_sums :
   deposits_of (init tb1 b1 (fun _ => 0)) h1 0 = 507 /\ executed_of (init tb1 b1 (fun _ => 0)) h1 0 = 204.
 Proof. vm_compute. split; reflexivity. Qed.
+Example h1_guarded : guarded (init tb1 b1 (fun _ => 0)) h1 = true.
+Proof. vm_compute. reflexivity. Qed.
 
 (** a state with an open batch and a pooled transfer, for the instantiation of theorem 1 *)
-Definition s2 : state := run (init tb1 b1 (fun _ => 0)) (firstn 8 h1).
+Definition s2 : state := run (init tb1 b1 (fun _ => 0)) (firstn 9 h1).
 Example s2_pending : pool_ids s2 = [4] /\ batch_ids s2 = [1; 3; 2] /\ escrow s2 0 = 214 /\ escrow s2 2 = 50
   /\ sum_for tb1 0 (pending s2) = 214 /\ sum_for tb1 2 (pending s2) = 50.
 Proof. vm_compute. repeat split. Qed.
 
 (** failures that are no-ops, with and without an injected fault *)
 Example failed_ops_nonvacuous :
-  snd (step s2 (OSend 0 0 0 5 1 (fat 1))) = Err /\ snd (step s2 (OCancel 0 3 nofault)) = Err /\
-  snd (step s2 (OBuild 0 0 100 1000 (fat 2))) = Err /\ snd (step s2 (OExecuted 0 0 2 5 (fat 0))) = Err /\
-  snd (step s2 (ODeposit 0 0 RInvalid 7 (fat 1))) = Err /\ snd (step s2 (OCancelBatch 0 2 (fat 0))) = Err.
+  snd (step s2 (OSend 0 1 0 5 1 false (fat 1))) = Err /\ snd (step s2 (OCancel 0 3 nofault)) = Err /\
+  snd (step s2 (OBuild 1 0 100 1000 (fat 2))) = Err /\ snd (step s2 (OExecuted 1 0 2 5 (fat 0))) = Err /\
+  snd (step s2 (ODeposit 1 0 RInvalid 7 (fat 1))) = Err /\ snd (step s2 (OCancelBatch 0 2 (fat 0))) = Err /\
+  snd (step s2 (OSend 0 1 0 5 1 true nofault)) = Err /\
+  snd (step s2 (OMapAdmin 1 1 0 true nofault)) = Err /\ snd (step s2 (OMapAdmin 1 1 1 true (fat 0))) = Err.
 Proof. vm_compute. repeat split. Qed.
 
 (** * Witnesses of the defects of the pinned tree (what the code did before the fix: commits) *)
@@ -91,17 +97,79 @@ Proof. vm_compute. repeat split. Qed.
     escrow; [build] (the repaired code) leaves everything in place. *)
 Definition s3 : state := run (init tb1 b1 (fun _ => 0)) (firstn 3 h1).
 Example F1_raw_build_strands_transfers :
-  let '(s', out, _) := build_raw (fat 1) 0 0 100 1000 s3 in
+  let '(s', out, _) := build_raw (fat 1) 1 0 100 1000 s3 in
   out = Err /\ pool_ids s' = [2] /\ batch_ids s' = [] /\ escrow s' 0 = 204 /\
   sum_for tb1 0 (pending s') = 0.
 Proof. vm_compute. repeat split. Qed.
 Example F1_fixed_build_is_noop :
-  let '(s', out, _) := build (fat 1) 0 0 100 1000 s3 in
+  let '(s', out, _) := build (fat 1) 1 0 100 1000 s3 in
   out = Err /\ pool_ids s' = [1; 3; 2] /\ escrow s' 0 = 204 /\ sum_for tb1 0 (pending s') = 204.
 Proof. vm_compute. repeat split. Qed.
 
-(** F1b: without the chain test in pickUnbatchedTxs a batch for chain 0 would take id 2 (chain 1);
+(** F1b: without the chain test in pickUnbatchedTxs a batch for chain 1 would take id 2 (chain 0);
     with it (the model's [pick]) it does not. *)
 Example F1b_pick_respects_chain :
-  map t_id (fst (pick 0 0 100 (pool s3))) = [1; 3] /\ map t_id (snd (pick 0 0 100 (pool s3))) = [2].
+  map t_id (fst (pick 1 0 100 (pool s3))) = [1; 3] /\ map t_id (snd (pick 1 0 100 (pool s3))) = [2].
 Proof. vm_compute. split; reflexivity. Qed.
+
+(** * Round 2: the denom table written while transfers are pending *)
+
+(** a token admin binds a fresh contract for denom 1 on chain 1 while transfers are pending, later
+    re-maps the denom to another fresh contract (the old reverse entry stays: pending transfers
+    of the old contract are still refunded in denom 1); governance re-asserts an existing pair.
+    All of it is inside the guard. *)
+Definition h2 : list op := firstn 9 h1 ++ [
+  OMapAdmin 1 1 1 true nofault;        (* denom 1 <-> contract 1 on chain 1 *)
+  OSend 2 1 1 30 3 false nofault;      (* id 5, contract 1 *)
+  OMapAdmin 1 1 0 true nofault;        (* contract 0 is bound on chain 1: refused *)
+  OMapAdmin 1 1 2 false nofault;       (* not the token's admin: refused *)
+  OMapAdmin 1 1 2 true nofault;        (* denom 1 re-mapped to contract 2; (1, contract 1) -> denom 1 stays *)
+  OSend 2 1 1 40 4 false nofault;      (* id 6, contract 2 *)
+  OMapGov 1 1 2;                       (* governance re-asserts the pair *)
+  OCancel 2 5 nofault                  (* id 5 (old contract) refunded in denom 1 *)
+].
+Definition s4 : state := run (init tb1 b1 (fun _ => 0)) h2.
+Example h2_guarded : guarded (init tb1 b1 (fun _ => 0)) h2 = true.
+Proof. vm_compute. reflexivity. Qed.
+Example s4_remap :
+  map t_contract (pool s4) = [2; 0] /\ refunded s4 = [5] /\ escrow s4 1 = 44 /\ bal s4 2 1 = 1000 - 44 /\
+  erc20_of (table s4) 1 1 = Some 2 /\ denom_of (table s4) 1 1 = Some 1 /\ denom_of (table s4) 1 2 = Some 1 /\
+  sum_for (table s4) 1 (pending s4) = 44 /\
+  map (fun e => fst (fst e)) (d2e_rows (table s4)) = [0; 1; 1].
+Proof. vm_compute. repeat split. Qed.
+
+(** without the guard the governance path breaks conservation: one pooled transfer of denom 0,
+    then governance binds its contract to denom 1 — the transfer would now be refunded / burned in
+    denom 1, its 100 of denom 0 stay in escrow for ever.  Replayed on the real keeper:
+    harness/corpus/C01/G1_gov_remap_contract_with_pending.json *)
+Theorem escrow_eq_pending_unguarded_refuted_proof :
+  exists tb b0 sup0 ops d, table_wf tb /\
+    let s := run (init tb b0 sup0) ops in escrow s d <> sum_for (table s) d (pending s).
+Proof.
+  exists [(0, 0, 0)], (fun _ _ => 1000), (fun _ => 0),
+         [OSend 0 0 0 100 0 false nofault; OMapGov 0 1 0], 0.
+  split; [apply table_wf_b_sound; reflexivity|].
+  vm_compute. discriminate.
+Qed.
+
+(** * Round 2: the whole end-blocker, with panics *)
+Definition s5 : state := run (init tb1 b1 (fun _ => 0)) (firstn 3 h1).   (* ids 1, 3 (chain 1) and 2 (chain 0) pooled *)
+(** nothing panics: both batches are built, the deposit is applied, batch 1 gets its estimate *)
+Example full_end_block_ok :
+  let s := fst (step s5 (OEndBlockFull 100 1000 [[EvDeposit 1 0 (RUser 2) 500]; []] [(0, 1, 21000)] nofault nofault)) in
+  pool_ids s = [] /\ map b_nonce (batches s) = [2; 1] /\ map b_gas (batches s) = [0; 21000] /\ bal s 2 0 = 1500.
+Proof. vm_compute. repeat split. Qed.
+(** relayer selection panics in the second build (5th collaborator call of the block): the first
+    batch stays, the second build leaves no trace, and the rest of the block (the deposit, the
+    estimate) is skipped *)
+Example full_end_block_panic :
+  let x := end_block_full nofault (fat 4) 100 1000 [[EvDeposit 1 0 (RUser 2) 500]; []] [(0, 1, 21000)] s5 in
+  eb_dead x = true /\ pool_ids (eb_s x) = [1; 3] /\ map b_nonce (batches (eb_s x)) = [1] /\
+  map b_gas (batches (eb_s x)) = [0] /\ bal (eb_s x) 2 0 = 1000 /\ last_batch (eb_s x) = 1 /\
+  length (eb_tr x) = 1%nat.
+Proof. vm_compute. repeat split. Qed.
+(** the forward of a deposit panics: the mint is dropped with the handler's cached context *)
+Example full_end_block_panic_in_deposit :
+  let x := end_block_full nofault (fat 1) 7 1000 [[EvDeposit 1 0 (RUser 2) 500]; []] [] s5 in
+  eb_dead x = true /\ supply (eb_s x) 0 = 0 /\ escrow (eb_s x) 0 = 204 /\ eb_tr x = [].
+Proof. vm_compute. repeat split. Qed.
